@@ -60,10 +60,20 @@ func ParseCSRResponse(signPrivateKey *sm2.PrivateKey, der []byte) (CSRResponse, 
 		signCerts[i] = signCert
 	}
 
-	// check sign public key against the private key
-	if !signPrivateKey.PublicKey.Equal(signCerts[0].PublicKey) {
+	// check sign public key against the private key.
+	// signCertificate is a SET OF Certificate: DER sorts its elements, so the
+	// certificate of the signing key is not necessarily the first one.
+	signIdx := -1
+	for i, signCert := range signCerts {
+		if signPrivateKey.PublicKey.Equal(signCert.PublicKey) {
+			signIdx = i
+			break
+		}
+	}
+	if signIdx < 0 {
 		return result, errors.New("smx509: sign cert public key mismatch")
 	}
+	signCerts[0], signCerts[signIdx] = signCerts[signIdx], signCerts[0]
 
 	var encPrivateKey *sm2.PrivateKey
 	if len(resp.EncryptedPrivateKey.Bytes) > 0 {
